@@ -1,9 +1,362 @@
-import EvoModel.Lemmas.SO3
-import EvoModel.Model.Lie
-namespace Evo.C09
-open Evo
+/-
+C09 — Lie-group helpers satisfy the group laws (evo/core/lie_algebra.py).
+Property theorems about `Model/Lin.lean` + `Model/Lie.lean`.  `K` is any ordered field (ℚ for the
+driver, ℝ for the mathematics); the tolerance tests are stated over ℚ (they are rational mirrors).
 
-theorem hat_vee (v : V3 ℚ) : M3.vee (M3.hat v) = v := by
+Angle: evo's rotation angle is `atan2(√s², c)` of the *core* `(c, s²) = M3.angleCore R`
+(`c = (tr R − 1)/2 = cos θ`, `s² = ‖vee((R − Rᵀ)/2)‖² = sin² θ`); the metric clauses are proved on
+the core.  **Open:** the triangle inequality of the angle (tested by the oracle only).
+exp/log: scipy's `so3_exp`/`so3_log` are tied by the Rodrigues certificate; the `_partial`
+theorems are the polynomial content of exp∘log = id and log∘exp = id (see each docstring).
+-/
+import EvoModel.Lemmas.Lie
+namespace Evo.C09
+open Evo Evo.Lie
+
+set_option linter.unusedSectionVars false
+
+section field
+variable {K : Type} [Field K]
+
+/-! ### hat / vee -/
+
+/-- `vee(hat(v)) = v` -/
+theorem vee_hat (v : V3 K) : M3.vee (M3.hat v) = v := by
   ext <;> simp [M3.vee, M3.hat]
+
+/-- `hat(vee(S)) = S` for every skew-symmetric `S` -/
+theorem hat_vee (s : M3 K) (hs : s.transpose = M3.smul (-1) s) (h2 : (1 + 1 : K) ≠ 0) :
+    M3.hat (M3.vee s) = s := by
+  have e := fun (f : M3 K → K) => congrArg f hs
+  have d : ∀ x : K, x = -1 * x → x = 0 := by
+    intro x hx
+    have : (1 + 1) * x = 0 := by linear_combination hx
+    rcases mul_eq_zero.mp this with h | h
+    · exact absurd h h2
+    · exact h
+  have h00 := d _ (by simpa [M3.transpose, M3.smul] using e M3.a00)
+  have h11 := d _ (by simpa [M3.transpose, M3.smul] using e M3.a11)
+  have h22 := d _ (by simpa [M3.transpose, M3.smul] using e M3.a22)
+  have h10 : s.a10 = -s.a01 := by simpa [M3.transpose, M3.smul] using e M3.a01
+  have h20 : s.a20 = -s.a02 := by simpa [M3.transpose, M3.smul] using e M3.a02
+  have h21 : s.a21 = -s.a12 := by simpa [M3.transpose, M3.smul] using e M3.a12
+  ext <;> simp [M3.vee, M3.hat, *]
+
+/-- `hat v` is the matrix of the cross product: `hat(v)·u = v × u` -/
+theorem hat_is_cross (v u : V3 K) : (M3.hat v).mulVec u = V3.cross v u := by
+  ext <;> simp only [M3.hat, M3.mulVec, V3.cross] <;> ring
+
+/-! ### SE(3): inverse and relative pose -/
+
+/-- `se3_inverse(P)·P = I` -/
+theorem se3_inv_mul (p : Pose K) (h : IsRigid p) : p.inv.mul p = Pose.one := Pose.inv_mul_self h
+
+/-- `P·se3_inverse(P) = I` -/
+theorem se3_mul_inv (p : Pose K) (h : IsRigid p) : p.mul p.inv = Pose.one := Pose.mul_inv_self h
+
+/-- `relative_se3(A, B) = A⁻¹·B`: it is the unique `X` with `A·X = B` -/
+theorem rel_eq_inv_mul (a b : Pose K) (h : IsRigid a) :
+    a.rel b = a.inv.mul b ∧ a.mul (a.rel b) = b ∧ ∀ x : Pose K, a.mul x = b → x = a.rel b := by
+  refine ⟨rfl, ?_, ?_⟩
+  · unfold Pose.rel; rw [← Pose.mul_assoc', Pose.mul_inv_self h, Pose.one_mul']
+  · intro x hx
+    unfold Pose.rel; rw [← hx, ← Pose.mul_assoc', Pose.inv_mul_self h, Pose.one_mul']
+
+/-- `relative_se3(A, A) = I` -/
+theorem rel_self (a : Pose K) (h : IsRigid a) : a.rel a = Pose.one := Pose.rel_self h
+
+/-- `relative_so3(A, B) = A⁻¹·B` and `relative_so3(A, A) = I` for orthonormal `A` -/
+theorem rel_so3_laws (a b : M3 K) (h : IsOrtho a) : a.mul (relSo3 a b) = b ∧ relSo3 a a = M3.one := by
+  constructor
+  · unfold relSo3; rw [← M3.mul_assoc', h.mul_transpose, M3.one_mul']
+  · exact h
+
+/-- the group is closed under the helpers: inverse and relative pose of rigid poses are rigid -/
+theorem se3_closed (a b : Pose K) (ha : IsRigid a) (hb : IsRigid b) :
+    IsRigid a.inv ∧ IsRigid (a.rel b) ∧ IsRigid (a.mul b) := ⟨ha.inv, ha.rel hb, ha.mul hb⟩
+
+/-! ### Sim(3) -/
+
+/-- `sim3_inverse(S)·S = I` and `S·sim3_inverse(S) = I` for `S = sim3(R, t, s)`, `R` orthonormal,
+`s ≠ 0`, when the scale used by the inverse is `s` (evo recovers it as `det^(1/3)`, see
+`sim3_scale_recovered_partial`) -/
+theorem sim3_inv_mul (r : M3 K) (t : V3 K) (s : K) (h : IsOrtho r) (hs : s ≠ 0) :
+    ((Pose.sim3 r t s).sim3Inv s).mul (Pose.sim3 r t s) = Pose.one ∧
+    (Pose.sim3 r t s).mul ((Pose.sim3 r t s).sim3Inv s) = Pose.one := by
+  constructor
+  · rw [sim3Inv_mul_gen r t s hs, h]; rfl
+  · rw [mul_sim3Inv_gen r t s hs, h.mul_transpose, M3.one_mulVec]
+    ext <;> simp [Pose.one, V3.sub, V3.zero]
+
+/-- the inverse of `sim3(R, t, s)` is again a similarity, `sim3(Rᵀ, ·, 1/s)`: scale `1/s` -/
+theorem sim3_inv_is_sim3 (r : M3 K) (t : V3 K) (s : K) (hs : s ≠ 0) :
+    ∃ t', (Pose.sim3 r t s).sim3Inv s = Pose.sim3 r.transpose t' (1 / s) := by
+  refine ⟨V3.neg ((M3.transpose (M3.smul (1 / s) (M3.smul s r))).mulVec (V3.smul (1 / s) t)), ?_⟩
+  ext <;> simp only [Pose.sim3Inv, Pose.sim3, M3.smul, M3.transpose] <;> field_simp
+
+/-- polynomial core of "the scale factor is recovered": `det(s·R) = s³` for a rotation `R`, so the
+real cube root that `sim3_scale` takes is `s` for `s > 0`.  **Partial**: the cube root itself
+(`numpy.power(·, 1/3)`) is not modelled; the harness checks `sim3_scale(S)³ = det` per case. -/
+theorem sim3_scale_recovered_partial (r : M3 K) (t : V3 K) (s : K) (h : IsRot r) :
+    (Pose.sim3 r t s).rot.det = s ^ 3 := by
+  simp only [Pose.sim3]; rw [M3.det_smul, h.2, mul_one]
+
+end field
+
+section ordered
+variable {K : Type} [Field K] [LinearOrder K] [IsStrictOrderedRing K]
+
+/-- on positive scales the cube is injective: `s³ = det` determines `s` -/
+theorem sim3_scale_unique (s s' : K) (hs : 0 < s) (hs' : 0 < s') (h : s ^ 3 = s' ^ 3) : s = s' := by
+  rcases lt_trichotomy s s' with hlt | heq | hgt
+  · have : s ^ 3 < s' ^ 3 := pow_lt_pow_left₀ hlt hs.le (by norm_num)
+    exact absurd h (ne_of_lt this)
+  · exact heq
+  · have : s' ^ 3 < s ^ 3 := pow_lt_pow_left₀ hgt hs'.le (by norm_num)
+    exact absurd h.symm (ne_of_lt this)
+
+/-! ### the rotation angle, on its `(cos, sin²)` core -/
+
+/-- **range**: for a rotation the core is a point `(c, s²)` with `c² + s² = 1`, `−1 ≤ c ≤ 1`,
+`0 ≤ s² ≤ 1`, so that the angle `atan2(√s², c)` lies in `[0, π]` and has cosine `c` -/
+theorem angle_range (a b : M3 K) (ha : IsRot a) (hb : IsRot b) :
+    let cs := (relSo3 a b).angleCore
+    cs.1 ^ 2 + cs.2 = 1 ∧ -1 ≤ cs.1 ∧ cs.1 ≤ 1 ∧ 0 ≤ cs.2 ∧ cs.2 ≤ 1 := by
+  have hr := relSo3_isRot ha hb
+  have h1 := hr.angleCore_eq
+  have h2 := hr.cos_range
+  have h3 : 0 ≤ (relSo3 a b).angleCore.2 := by rw [M3.angleCore_snd]; exact V3.normSq_nonneg _
+  refine ⟨h1, h2.1, h2.2, h3, ?_⟩
+  nlinarith [sq_nonneg (relSo3 a b).angleCore.1]
+
+/-- **symmetry**: `d(A, B) = d(B, A)` (for all matrices, no hypothesis needed) -/
+theorem angle_symm (a b : M3 K) : (relSo3 b a).angleCore = (relSo3 a b).angleCore := by
+  rw [relSo3_swap]
+  generalize relSo3 a b = m
+  apply Prod.ext
+  · rfl
+  · simp only [M3.angleCore, M3.transpose, V3.normSq, V3.dot]; ring
+
+/-- **left invariance**: `d(T·A, T·B) = d(A, B)` for orthonormal `T` -/
+theorem angle_left_invariant (t a b : M3 K) (ht : IsOrtho t) :
+    (relSo3 (t.mul a) (t.mul b)).angleCore = (relSo3 a b).angleCore := by
+  rw [relSo3_mul_left ht]
+
+/-- **right invariance**: `d(A·T, B·T) = d(A, B)` for orthonormal `T` -/
+theorem angle_right_invariant (t a b : M3 K) (ht : IsOrtho t) :
+    (relSo3 (a.mul t) (b.mul t)).angleCore = (relSo3 a b).angleCore := by
+  rw [relSo3_mul_right]
+  generalize relSo3 a b = m
+  have h2 : (1 + 1 : K) ≠ 0 := two_ne_zero'
+  apply Prod.ext
+  · rw [M3.angleCore_fst, M3.angleCore_fst, M3.trace_conj ht]
+  · rw [M3.angleCore_snd, M3.angleCore_snd, M3.axisVec_eq, M3.axisVec_eq]
+    have key : ((t.transpose.mul m).mul t).axis2.normSq = m.axis2.normSq := by
+      have e1 := M3.axis2_normSq_eq_frob ((t.transpose.mul m).mul t)
+      have e2 := M3.axis2_normSq_eq_frob m
+      rw [M3.sub_transpose_conj, frobSq_mul_right_of_ortho ht, frobSq_mul_left_of_ortho ht.transpose] at e1
+      exact mul_left_cancel₀ h2 (e1.trans e2.symm)
+    simp only [V3.normSq, V3.dot, V3.smul] at key ⊢
+    linear_combination (1 / (1 + 1)) * (1 / (1 + 1)) * key
+
+/-- **zero only for equal rotations**: the core is `(1, 0)` (angle 0) exactly when `A = B` -/
+theorem angle_zero_iff_eq (a b : M3 K) (ha : IsOrtho a) (hb : IsOrtho b) :
+    (relSo3 a b).angleCore = (1, 0) ↔ a = b := by
+  have h2 : (1 + 1 : K) ≠ 0 := two_ne_zero'
+  constructor
+  · intro h
+    have hc : (relSo3 a b).angleCore.1 = 1 := by rw [h]
+    rw [M3.angleCore_fst, div_eq_iff h2] at hc
+    have ht : (relSo3 a b).trace = 3 := by linear_combination hc
+    have hone := (ha.transpose.mul hb).eq_one_of_trace ht
+    have := (rel_so3_laws a b ha).1
+    rw [show relSo3 a b = M3.one from hone, M3.mul_one'] at this
+    exact this
+  · rintro rfl
+    rw [show relSo3 a a = M3.one from ha]
+    apply Prod.ext
+    · rw [M3.angleCore_fst, M3.trace_one]; field_simp; norm_num
+    · simp [M3.angleCore, M3.one, V3.normSq, V3.dot]
+
+/-- the cosine alone decides: `c = 1 ↔ A = B`, and then `s² = 0` -/
+theorem angle_cos_one_iff_eq (a b : M3 K) (ha : IsOrtho a) (hb : IsOrtho b) :
+    (relSo3 a b).angleCore.1 = 1 ↔ a = b := by
+  constructor
+  · intro hc
+    have h2 : (1 + 1 : K) ≠ 0 := two_ne_zero'
+    rw [M3.angleCore_fst, div_eq_iff h2] at hc
+    have ht : (relSo3 a b).trace = 3 := by linear_combination hc
+    have hone := (ha.transpose.mul hb).eq_one_of_trace ht
+    have := (rel_so3_laws a b ha).1
+    rw [show relSo3 a b = M3.one from hone, M3.mul_one'] at this
+    exact this
+  · intro h
+    rw [((angle_zero_iff_eq a b ha hb).mpr h)]
+
+/-! ### exponential and logarithm through Rodrigues' formula -/
+
+/-- `exp(0) = I` (whatever the coefficients) -/
+theorem exp_zero (a b : K) : rodrigues (V3.zero : V3 K) a b = M3.one := rodrigues_zero a b
+
+/-- a Rodrigues matrix whose coefficients satisfy `a² + b²‖v‖² = 2b` (true of
+`a = sin θ/θ`, `b = (1 − cos θ)/θ²`, `θ = ‖v‖`) is a proper rotation -/
+theorem exp_is_rotation (v : V3 K) (a b : K) (h : a * a + b * b * v.normSq = (1 + 1) * b) :
+    IsRot (rodrigues v a b) := rodrigues_isRot v a b h
+
+/-- **log ∘ exp, polynomial form.**  For `R = I + a·hat v + b·(hat v)²` the angle core is
+`(1 − b‖v‖², a²‖v‖²)` (`= (cos θ, sin² θ)` for the coefficients above) and the axis vector
+`vee((R − Rᵀ)/2)` is `a·v`: dividing by `a ≠ 0` (i.e. `sin θ ≠ 0`, `0 < θ < π`) gives `v` back.
+**Partial**: the transcendental step `θ = atan2(√s², c)`, `a = sin θ/θ` is not in the model
+(scipy is tied by the certificate, the harness checks `log(exp v) = v` for `‖v‖ < π`). -/
+theorem log_exp_partial (v : V3 K) (a b : K) (ha : a ≠ 0) :
+    (rodrigues v a b).angleCore = (1 - b * v.normSq, a * a * v.normSq) ∧
+    V3.smul (1 / a) (rodrigues v a b).axisVec = v := by
+  have h2 : (1 + 1 : K) ≠ 0 := two_ne_zero'
+  have hax : (rodrigues v a b).axisVec = V3.smul a v := by
+    rw [M3.axisVec_eq, rodrigues_axis2]
+    ext <;> simp only [V3.smul] <;> field_simp
+  refine ⟨?_, ?_⟩
+  · apply Prod.ext
+    · rw [M3.angleCore_fst, rodrigues_trace]; field_simp; ring
+    · rw [M3.angleCore_snd, hax]; simp only [V3.normSq, V3.dot, V3.smul]; ring
+  · rw [hax]; ext <;> simp only [V3.smul] <;> field_simp
+
+/-- **exp ∘ log, polynomial form.**  Every rotation with `c ≠ −1` (angle ≠ π) is the Rodrigues
+matrix of its axis vector `w = vee((R − Rᵀ)/2)` with coefficients `(1, 1/(1 + c))`; with
+`v = (θ/sin θ)·w` this is `exp(log R) = R` (`(1 − cos θ)/sin² θ = 1/(1 + cos θ)`).
+**Partial**: angle π is excluded (the axis is then determined only up to sign) and the
+transcendental rescaling `w ↦ v` is not in the model. -/
+theorem exp_log_partial (r : M3 K) (h : IsRot r) (hc : 1 + r.angleCore.1 ≠ 0) :
+    rodrigues r.axisVec 1 (1 / (1 + r.angleCore.1)) = r := by
+  have h2 : (1 + 1 : K) ≠ 0 := two_ne_zero'
+  have hrod := h.rodrigues
+  have hn := h.axis_normSq
+  rw [← M3.angleCore_fst] at hn
+  set c := r.angleCore.1 with hcdef
+  set w := r.axisVec with hw
+  have e := fun (f : M3 K → K) => congrArg f hrod
+  simp only [V3.normSq, V3.dot] at hn
+  -- skew part of R is hat w
+  have s01 : r.a01 - r.a10 = -(1 + 1) * w.z := by rw [hw]; simp only [M3.axisVec]; field_simp; ring
+  have s02 : r.a02 - r.a20 = (1 + 1) * w.y := by rw [hw]; simp only [M3.axisVec]; field_simp
+  have s12 : r.a12 - r.a21 = -(1 + 1) * w.x := by rw [hw]; simp only [M3.axisVec]; field_simp; ring
+  have e00 := e M3.a00; have e01 := e M3.a01; have e02 := e M3.a02
+  have e11 := e M3.a11; have e12 := e M3.a12; have e22 := e M3.a22
+  simp only [M3.smul, M3.add, M3.transpose, M3.one, M3.outer] at e00 e01 e02 e11 e12 e22
+  ext <;> simp only [rodrigues, M3.add, M3.smul, M3.mul, M3.hat, M3.one] <;> field_simp
+  · linear_combination (-1) * e00 - hn
+  · linear_combination (-1) * e01 - ((1 + c) / (1 + 1)) * s01
+  · linear_combination (-1) * e02 - ((1 + c) / (1 + 1)) * s02
+  · linear_combination (-1) * e01 + ((1 + c) / (1 + 1)) * s01
+  · linear_combination (-1) * e11 - hn
+  · linear_combination (-1) * e12 - ((1 + c) / (1 + 1)) * s12
+  · linear_combination (-1) * e02 + ((1 + c) / (1 + 1)) * s02
+  · linear_combination (-1) * e12 + ((1 + c) / (1 + 1)) * s12
+  · linear_combination (-1) * e22 - hn
+
+end ordered
+
+/-! ### membership tests (`is_so3`, `is_se3`, `is_sim3`) -/
+
+/-- every exact rotation is accepted -/
+theorem so3_accepts_rotations (r : M3 ℚ) (h : IsRot r) : isSo3Tol r = true := by
+  unfold isSo3Tol
+  rw [h.2, show M3.mul (M3.transpose r) r = M3.one from h.1, isClose_self_one, allClose_one]; rfl
+
+/-- every exact rigid pose with bottom row `0 0 0 1` is accepted by `is_se3` -/
+theorem se3_accepts_rigid (r : M3 ℚ) (t : V3 ℚ) (h : IsRot r) : isSe3Tol (Mat4.se3 r t) = true := by
+  unfold isSe3Tol; simp only [Mat4.se3]; rw [so3_accepts_rotations r h]; simp [bottomOk]
+
+/-- reflections (orthonormal, determinant −1) are rejected -/
+theorem so3_rejects_reflection (r : M3 ℚ) (_h : IsOrtho r) (hd : r.det = -1) : isSo3Tol r = false := by
+  unfold isSo3Tol
+  rw [hd, show isClose (-1) 1 = false by decide +kernel]; rfl
+
+/-- a rotation block scaled by `k` with `|k³ − 1| > 1.1e-5` is rejected (determinant test);
+`1.1e-5 = atol + rtol·1` is the effective tolerance of `np.allclose(det, 1, atol=1e-6)` -/
+theorem so3_rejects_scaled (r : M3 ℚ) (k : ℚ) (h : IsRot r) (hk : 11 / 1000000 < |k ^ 3 - 1|) :
+    isSo3Tol (M3.smul k r) = false := by
+  unfold isSo3Tol
+  have : isClose (M3.smul k r).det 1 = false := by
+    rw [Bool.eq_false_iff, ne_eq, isClose_one_iff, M3.det_smul, h.2, mul_one]
+    exact not_le.mpr hk
+  rw [this]; rfl
+
+/-- … and so is one with `|k² − 1| > 1.1e-5` (diagonal of `RᵀR`) -/
+theorem so3_rejects_scaled_diag (r : M3 ℚ) (k : ℚ) (h : IsRot r) (hk : 11 / 1000000 < |k ^ 2 - 1|) :
+    isSo3Tol (M3.smul k r) = false := by
+  unfold isSo3Tol
+  have hg : M3.mul (M3.transpose (M3.smul k r)) (M3.smul k r) = M3.smul (k ^ 2) M3.one := by
+    have : M3.mul (M3.transpose (M3.smul k r)) (M3.smul k r) = M3.smul (k ^ 2) (r.transpose.mul r) := by
+      ext <;> simp only [M3.mul, M3.transpose, M3.smul] <;> ring
+    rw [this, show r.transpose.mul r = M3.one from h.1]
+  have : isClose (M3.mul (M3.transpose (M3.smul k r)) (M3.smul k r)).a00 (M3.one : M3 ℚ).a00 = false := by
+    rw [hg, Bool.eq_false_iff, ne_eq]
+    simp only [M3.smul, M3.one, mul_one]
+    rw [isClose_one_iff]
+    exact not_le.mpr hk
+  unfold allClose
+  rw [this]; simp
+
+/-- a sheared rotation block `R·(I + k·e₀e₁ᵀ)` with `|k| > 1e-6` is rejected (off-diagonal of `RᵀR`) -/
+theorem so3_rejects_sheared (r : M3 ℚ) (k : ℚ) (h : IsRot r) (hk : 1 / 1000000 < |k|) :
+    isSo3Tol (r.mul ⟨1, k, 0, 0, 1, 0, 0, 0, 1⟩) = false := by
+  unfold isSo3Tol
+  set s : M3 ℚ := ⟨1, k, 0, 0, 1, 0, 0, 0, 1⟩ with hs
+  have hg : M3.mul (M3.transpose (r.mul s)) (r.mul s) = s.transpose.mul s := by
+    rw [M3.transpose_mul, M3.mul_assoc', ← M3.mul_assoc' r.transpose, show r.transpose.mul r = M3.one from h.1,
+      M3.one_mul']
+  have : isClose (M3.mul (M3.transpose (r.mul s)) (r.mul s)).a01 (M3.one : M3 ℚ).a01 = false := by
+    rw [hg, Bool.eq_false_iff, ne_eq]
+    simp only [hs, M3.mul, M3.transpose, M3.one]
+    rw [isClose_zero_iff]
+    have : (1 : ℚ) * k + 0 * 1 + 0 * 0 = k := by ring
+    rw [this]
+    exact not_le.mpr hk
+  unfold allClose
+  rw [this]; simp
+
+/-- a bottom row other than `0 0 0 1` is rejected by `is_se3` and `is_sim3`, whatever the rest -/
+theorem se3_rejects_bottom_row (m : Mat4 ℚ) (s : ℚ) (hb : ¬ (m.b0 = 0 ∧ m.b1 = 0 ∧ m.b2 = 0 ∧ m.b3 = 1)) :
+    isSe3Tol m = false ∧ isSim3Tol m s = false := by
+  have : bottomOk m = false := by
+    unfold bottomOk
+    rw [Bool.eq_false_iff]
+    intro hc
+    simp only [Bool.and_eq_true, decide_eq_true_eq] at hc
+    exact hb ⟨hc.1.1.1, hc.1.1.2, hc.1.2, hc.2⟩
+  unfold isSe3Tol isSim3Tol
+  rw [this]; simp
+
+/-- `sim3(R, t, s)` with a rotation `R` and `s ≠ 0` is accepted by `is_sim3(·, s)` -/
+theorem sim3_accepts_scaled_rotation (r : M3 ℚ) (t : V3 ℚ) (s : ℚ) (h : IsRot r) (hs : s ≠ 0) :
+    isSim3Tol (Mat4.sim3 r t s) s = true := by
+  unfold isSim3Tol
+  simp only [Mat4.sim3, Pose.sim3]
+  rw [M3.smul_smul, one_div, inv_mul_cancel₀ hs, M3.one_smul', so3_accepts_rotations r h]; simp [bottomOk]
+
+/-! ### non-vacuity: concrete instances of the hypotheses -/
+
+/-- rotation by the 3-4-5 angle about z -/
+def r345 : M3 ℚ := ⟨3/5, -4/5, 0, 4/5, 3/5, 0, 0, 0, 1⟩
+/-- rotation by 90° about x -/
+def rx90 : M3 ℚ := ⟨1, 0, 0, 0, 0, -1, 0, 1, 0⟩
+
+example : IsRot r345 := ⟨by unfold IsOrtho; decide +kernel, by decide +kernel⟩
+example : IsRot rx90 := ⟨by unfold IsOrtho; decide +kernel, by decide +kernel⟩
+example : IsRigid (⟨r345, ⟨1, 2, 3⟩⟩ : Pose ℚ) := by unfold IsRigid IsOrtho; decide +kernel
+example : (relSo3 r345 rx90).angleCore = (-1/5, 24/25) := by decide +kernel
+example : (relSo3 r345 r345).angleCore = (1, 0) := by decide +kernel
+example : IsOrtho (⟨1, 0, 0, 0, 1, 0, 0, 0, -1⟩ : M3 ℚ) ∧ (⟨1, 0, 0, 0, 1, 0, 0, 0, -1⟩ : M3 ℚ).det = -1 :=
+  ⟨by unfold IsOrtho; decide +kernel, by decide +kernel⟩
+example : (11 : ℚ) / 1000000 < |(101 / 100 : ℚ) ^ 3 - 1| := by norm_num [abs_of_pos]
+-- the Rodrigues hypothesis with θ² = ‖v‖² = 1 is met by rational points of the circle:
+-- a = sin θ/θ = 4/5, b = (1 − cos θ)/θ² = 2/5  (cos = 3/5)
+example : ((4 : ℚ) / 5) * (4 / 5) + (2 / 5) * (2 / 5) * (⟨0, 0, 1⟩ : V3 ℚ).normSq = (1 + 1) * (2 / 5) := by
+  decide +kernel
+example : rodrigues (⟨0, 0, 1⟩ : V3 ℚ) (4 / 5) (2 / 5) = r345 := by decide +kernel
+example : 1 + r345.angleCore.1 ≠ 0 := by decide +kernel
+example : isSo3Tol (M3.smul (1000004 / 1000000) r345) = false ∧ isSo3Tol (M3.smul (1000003 / 1000000) r345) = true := by
+  constructor <;> decide +kernel
 
 end Evo.C09
